@@ -186,3 +186,29 @@ MUTANTS["C20"] = [
     M("twin-enumerate-start-1", XTR, "        for i, line in enumerate(lines):\n            if mark_line is not None:\n                if mark_line == i + 1:",
       "        for i, line in enumerate(lines):\n            if mark_line is not None:\n                if i + 1 == mark_line:", twin=True),
 ]
+
+DRS = "src/clikit/resolver/default_resolver.py"
+CCL = "src/clikit/api/command/command_collection.py"
+
+MUTANTS["C03"] = [
+    M("f20-regression", DRS, "        while token is not None:\n            # \"--\" stops argument parsing", "        while token:\n            # \"--\" stops argument parsing", expect="C03-R7"),
+    M("alias-not-in-contains", CCL, "            or name in self._short_name_index\n            or name in self._alias_index\n", "            or name in self._short_name_index\n", expect="C03-R1"),
+    M("alias-not-recorded", CCL, "        for alias in command.aliases:\n            self._alias_index[alias] = name\n\n", "", expect="C03-R1"),
+    M("alias-not-in-get", CCL, "        if name in self._alias_index:\n            return self._commands[self._alias_index[name]]\n\n", "", expect="C03-R1"),
+    M("break-to-continue", DRS, "            if name not in named_commands:\n                break\n", "            if name not in named_commands:\n                continue\n", expect="C03-R3"),
+    M("option-test-removed", DRS, "            if token[:1] and token[0] == \"-\":\n                break\n\n            arguments_to_test.append(token)",
+      "            arguments_to_test.append(token)", expect="C03-R2"),
+    M("option-skipped-not-stopped", DRS, "            if token[:1] and token[0] == \"-\":\n                break\n\n            arguments_to_test.append(token)",
+      "            if token[:1] and token[0] == \"-\":\n                token = next(tokens, None)\n                continue\n\n            arguments_to_test.append(token)", expect="C03-R2"),
+    M("defaults-first", DRS,
+      "        if arguments_to_test:\n            raise CannotResolveCommandException.name_not_found(\n                arguments_to_test[0], named_commands\n            )\n\n        # If no arguments were passed, run the application's default command.\n        result = self.process_default_commands(args, application.default_commands)\n        if result:\n            return self.create_resolved_command(result)\n",
+      "        result = self.process_default_commands(args, application.default_commands)\n        if result:\n            return self.create_resolved_command(result)\n\n        if arguments_to_test:\n            raise CannotResolveCommandException.name_not_found(\n                arguments_to_test[0], named_commands\n            )\n",
+      expect="C03-R4"),
+    M("descent-through-all-subcommands", DRS, "named_commands = current_command.named_sub_commands", "named_commands = current_command.sub_commands", expect="C03-R3"),
+    M("anonymous-added-to-named", CAP, "        if not config.is_anonymous():\n            self._named_commands.add(command)\n", "        self._named_commands.add(command)\n", expect="C03-R5"),
+    M("disabled-sub-command-registered", CMD, "        if not config.is_enabled():\n            return\n\n        command = self.__class__(config, self._application, self)", "        command = self.__class__(config, self._application, self)", expect="C03-R5"),
+    M("twin-startswith", DRS, "            if token[:1] and token[0] == \"-\":\n                break\n\n            arguments_to_test.append(token)",
+      "            if token.startswith(\"-\"):\n                break\n\n            arguments_to_test.append(token)", twin=True),
+    M("twin-in-form", DRS, "            if name not in named_commands:\n                break\n\n            next_command = named_commands.get(name)\n",
+      "            if name in named_commands:\n                next_command = named_commands.get(name)\n            else:\n                break\n", twin=True),
+]
